@@ -2,7 +2,12 @@ package main
 
 // Happens-before monitor (vector clocks) over interpreted memory accesses.
 
-import "fmt"
+import (
+	"fmt"
+	"strings"
+
+	"golang.org/x/tools/go/ssa"
+)
 
 type vclock map[int]int
 
@@ -24,6 +29,26 @@ func (v vclock) join(o vclock) {
 type access struct {
 	tid, clk int
 	where    string
+	in       ssa.Instruction
+	stack    string
+}
+
+func (e *Engine) accWhere(a *access) string {
+	if a.where != "" {
+		return a.where
+	}
+	if a.in == nil {
+		return "?"
+	}
+	pos := e.prog.Fset.Position(a.in.Pos())
+	fn := ""
+	if a.in.Parent() != nil {
+		fn = a.in.Parent().String()
+	}
+	if pos.IsValid() {
+		return fmt.Sprintf("%s (%s:%d)", fn, pos.Filename[strings.LastIndex(pos.Filename, "/")+1:], pos.Line)
+	}
+	return fn
 }
 
 type cellHist struct {
@@ -76,7 +101,10 @@ func (e *Engine) hbAccess(key interface{}, write bool, where string) {
 		}
 	}
 	v := e.tvc(e.cur)
-	me := &access{tid: e.cur.id, clk: v[e.cur.id], where: where}
+	me := &access{tid: e.cur.id, clk: v[e.cur.id], where: where, in: e.curInstr}
+	if _, isMap := key.(*mapV); isMap {
+		me.stack = e.stackStr()
+	}
 	conflict := func(a *access) bool { return a != nil && a.tid != me.tid && a.clk > v[a.tid] }
 	if conflict(h.w) {
 		e.race(h.w, me, write)
@@ -95,7 +123,7 @@ func (e *Engine) hbAccess(key interface{}, write bool, where string) {
 }
 
 func (e *Engine) race(a, b *access, bWrite bool) {
-	x, y := a.where, b.where
+	x, y := e.accWhere(a), e.accWhere(b)
 	if y < x {
 		x, y = y, x
 	}
@@ -109,6 +137,6 @@ func (e *Engine) race(a, b *access, bWrite bool) {
 		class := e.classifyEvent()
 		_, model := e.check(TrueT, true)
 		e.inClassify = false
-		e.addFinding("race", msg, class, fmt.Sprintf("T%d vs T%d", a.tid, b.tid), model)
+		e.addFinding("race", msg, class, fmt.Sprintf("T%d [%s] vs T%d [%s]", a.tid, a.stack, b.tid, e.stackStr()), model)
 	}
 }
